@@ -69,6 +69,8 @@ where
             self.stored_len
         );
         // SAFETY: index < stored_len guarantees offset + SIZE_OF_T <= data_len
+        #[cfg(feature = "verif")]
+        self._reader.verif_access(HEADER_OFFSET + index * Self::SIZE_OF_T, Self::SIZE_OF_T, "VecReader::get");
         unsafe { S::read_from_ptr(self.data, index * Self::SIZE_OF_T) }
     }
 
@@ -79,6 +81,8 @@ where
             return None;
         }
         // SAFETY: index < stored_len guarantees offset + SIZE_OF_T <= data_len
+        #[cfg(feature = "verif")]
+        self._reader.verif_access(HEADER_OFFSET + index * Self::SIZE_OF_T, Self::SIZE_OF_T, "VecReader::try_get");
         Some(unsafe { S::read_from_ptr(self.data, index * Self::SIZE_OF_T) })
     }
 
